@@ -3,17 +3,24 @@
  *   C13 (decode-first clause: re-encode every accepted string) and
  *   C14 (decoding untrusted bytes).
  *
- * Include after vx.h and after the librfn sources (needs rf_wavheader_t).
- * NOTE: wavheader.c defines the file-scope objects riff, wave, fmt, fact,
- * data and null_id; nothing here may use those names.
+ * Include after vx.h and <librfn/wavheader.h> (needs rf_wavheader_t). The librfn sources are
+ * NOT part of this translation unit: the parts are built with lib=[pack.c, util.c, string.c,
+ * wavheader.c] (bin/checks.d/C13.py, C14.py), so a new static or helper of the library can never
+ * clash with a name used here. wavheader.c exports the objects riff, wave, fmt, fact, data and
+ * null_id; nothing here defines an external symbol, every name at file scope starts with w_/W_.
  *
  * The corpus (DESIGN.md section 4, C14) is a finite set enumerated completely:
  *   S: every byte string of length 0..slen (slen = 2 quick, 3 thorough), decoded at its
  *      full length (its truncations are members of S themselves);
- *   H: five valid header templates; every header that differs from its template in at
- *      most maxdev fields (2 quick / 3 thorough), each deviating field taking every
- *      value of a fixed menu; the header is followed by W_TRAIL extra bytes, and is
- *      presented at EVERY truncation length 0..len+W_TRAIL.
+ *   H: nine header templates (PCM16, PCM32, float+fact, extensible, 20-byte fmt chunk, PCM16+fact,
+ *      extensible+fact, PCM16 followed by a LIST chunk, float+fact followed by a JUNK chunk); every
+ *      header that differs from its template in at most maxdev fields (2 quick / 3 thorough), each
+ *      deviating field taking every value of a menu derived from the field's kind, its template
+ *      value and the constants the grammar compares it with (w_end); the header is followed by
+ *      W_TRAIL extra bytes, and is presented at EVERY truncation length 0..len+W_TRAIL.
+ *      A prefix that ends at or before the last deviating field is byte for byte an input of the
+ *      case without that deviation, which is enumerated on its own: such prefixes (t <= tdup) are
+ *      not judged a second time (the C14 truncation clause still learns their result).
  * Work is dealt to the workers in units (template), (template, first deviating field)
  * for single deviations and (template, first field, its value) for deeper ones.
  */
@@ -22,9 +29,11 @@
 
 #define W_TRAIL 2
 #define W_MAXF 24
-#define W_MAXALT 40
+#define W_MAXALT 64
 #define W_MAXDEV 3
-#define W_BUFMAX 80
+#define W_BUFMAX 96		/* longest template (extensible + fact chunk: 80 bytes) + W_TRAIL, rounded up; the hex line of a
+				 * replay file must stay below the 256 bytes of vx_replay_field */
+#define W_MAXTMPL 12
 
 /* ------------------------------------------------- own little-endian access */
 static void w_put16(uint8_t *p, uint32_t v) { p[0] = (uint8_t)v; p[1] = (uint8_t)(v >> 8); }
@@ -36,13 +45,13 @@ static uint32_t w_get32(const uint8_t *p) { return w_get16(p) | w_get16(p + 2) <
 enum { WK_ID, WK_U16, WK_U32, WK_GUID };
 static const int w_kwidth[] = { 4, 2, 4, 16 };
 
-typedef struct { const char *name; int off, kind, nalt; uint8_t alt[W_MAXALT][16]; } w_field;
+typedef struct { const char *name; int off, kind, nalt; uint8_t alt[W_MAXALT][16]; uint8_t core[W_MAXALT]; /* member of the reduced menu used for triple deviations */ } w_field;
 typedef struct { const char *name; int len, nf; w_field f[W_MAXF]; uint8_t bytes[W_BUFMAX]; } w_template;
-static w_template w_tmpl[5];
+static w_template w_tmpl[W_MAXTMPL];
 static int w_ntmpl;
 
 static w_template *w_bt;	/* template being built */
-static void w_begin(const char *name) { w_bt = &w_tmpl[w_ntmpl++]; memset(w_bt, 0, sizeof(*w_bt)); w_bt->name = name; }
+static void w_begin(const char *name) { if (w_ntmpl >= W_MAXTMPL) _exit(3); w_bt = &w_tmpl[w_ntmpl++]; memset(w_bt, 0, sizeof(*w_bt)); w_bt->name = name; }
 static w_field *w_addf(const char *name, int kind)
 {
 	w_field *f = &w_bt->f[w_bt->nf++];
@@ -55,12 +64,14 @@ static void w_u16(const char *name, uint32_t v) { w_field *f = w_addf(name, WK_U
 static void w_u32(const char *name, uint32_t v) { w_field *f = w_addf(name, WK_U32); w_put32(w_bt->bytes + f->off, v); }
 static void w_guid(const char *name, const uint8_t *g) { w_field *f = w_addf(name, WK_GUID); memcpy(w_bt->bytes + f->off, g, 16); }
 
+static int w_core;	/* values added while this is set belong to the core menu as well */
 static void w_add_alt(w_template *T, w_field *f, const uint8_t *v)
 {
 	int w = w_kwidth[f->kind];
 	if (0 == memcmp(T->bytes + f->off, v, (size_t)w)) return;	/* not a deviation */
-	for (int i = 0; i < f->nalt; i++) if (0 == memcmp(f->alt[i], v, (size_t)w)) return;
+	for (int i = 0; i < f->nalt; i++) if (0 == memcmp(f->alt[i], v, (size_t)w)) { if (w_core) f->core[i] = 1; return; }
 	if (f->nalt >= W_MAXALT) { fprintf(stderr, "wav_common: menu too large\n"); _exit(3); }
+	f->core[f->nalt] = (uint8_t)w_core;
 	memset(f->alt[f->nalt], 0, 16); memcpy(f->alt[f->nalt++], v, (size_t)w);
 }
 static void w_add_num(w_template *T, w_field *f, uint32_t v)
@@ -69,35 +80,88 @@ static void w_add_num(w_template *T, w_field *f, uint32_t v)
 	if (f->kind == WK_U16) w_put16(b, v & 0xffff); else w_put32(b, v);
 	w_add_alt(T, f, b);
 }
-/* the menus of DESIGN section 4 C14 (plus 4 and 12, the two fact-chunk sizes met in practice) */
+/* The menus (DESIGN section 4 C14, widened after the white-box review).
+ *  ids:    one byte off at EACH of the four positions; the case of each letter flipped, position by position and all at
+ *          once; the chunk ids met in real files: fact, data, LIST, bext, JUNK, FACT, "fmt ".
+ *  16-bit: 0, 1, 3, 22, 0xfffe, 0xffff; 0x100 and 0xff00 (low byte 0), 0x7fff and 0x8000 (sign bit); and for every
+ *          constant K the field is compared with or carries - its template value, the format tags 1 / 3 / 0xfffe,
+ *          the sample widths 16 / 32, the extension size 22 - the values K + 0x100 (equal to K in the low byte) and
+ *          K + 0x8000 (equal to K in the low 15 bits).
+ *  32-bit: 0, 1, 4, 12, 15..19, 40, 41, v-1, v+1, 0x7fffffff, 0x80000000, 0xffffffee..0xffffffff, and v + 0x100,
+ *          v + 0x10000 (equal to the template value v in the low 8 / 16 bits).
+ *  GUID:   all zero, first bit flipped, and the 16-bit menu of the format tag in its first two bytes.
+ * Headers with one or two deviating fields draw from these menus. Headers with three (thorough tier) draw from the core menu
+ * of each kind: ids last / first byte off, fact, data, LIST; 16-bit 0, 1, 3, 22, 0xfffe, 0xffff, 0x100, 0x8000; 32-bit 0, 1, 16, 17, 18,
+ * 40, v+1, 0x7fffffff, 0x80000000, 0xffffffee, 0xfffffff7, 0xffffffff; GUID all zero, tag 0xfffe, tag 3. */
+static void w_add_k16(w_template *T, w_field *f, uint32_t k) { w_add_num(T, f, (k + 0x100) & 0xffff); w_add_num(T, f, (k + 0x8000) & 0xffff); }
+static int w_isalpha(uint8_t c) { return (c >= 'a' && c <= 'z') || (c >= 'A' && c <= 'Z'); }
 static void w_end(void)
 {
 	w_template *T = w_bt;
-	static const uint32_t m16[] = { 0, 1, 3, 0xfffe, 0xffff, 22 };
+	static const uint32_t m16[] = { 0, 1, 3, 0xfffe, 0xffff, 22, 0x100, 0xff00, 0x7fff, 0x8000 };
+	static const uint32_t tag16[] = { 0x101, 0x8001, 0x103, 0x8003, 0x00fe, 0x7ffe };	/* K + 0x100, K + 0x8000 for the tags 1, 3, 0xfffe */
 	static const uint32_t m32[] = { 0, 1, 4, 12, 15, 16, 17, 18, 19, 40, 41 };
+	static const char *const ids[] = { "fact", "data", "LIST", "bext", "JUNK", "FACT", "fmt " };
+	if (T->len + W_TRAIL > W_BUFMAX) { fprintf(stderr, "wav_common: template too long\n"); _exit(3); }
 	T->bytes[T->len] = 0xa5; T->bytes[T->len + 1] = 0x5a;
 	for (int i = 0; i < T->nf; i++) {
-		w_field *f = &T->f[i]; uint8_t b[16]; uint32_t cur;
+		w_field *f = &T->f[i]; uint8_t b[16]; uint32_t cur; int letters = 0;
+		/* the core menu first (triple deviations, thorough tier, draw from it alone) */
+		w_core = 1;
 		switch (f->kind) {
 		case WK_ID:
-			memcpy(b, T->bytes + f->off, 4); b[3]++; w_add_alt(T, f, b);	/* one byte off */
-			w_add_alt(T, f, (const uint8_t *)"fact"); w_add_alt(T, f, (const uint8_t *)"data");
+			memcpy(b, T->bytes + f->off, 4); b[3]++; w_add_alt(T, f, b); memcpy(b, T->bytes + f->off, 4); b[0]++; w_add_alt(T, f, b);
+			w_add_alt(T, f, (const uint8_t *)"fact"); w_add_alt(T, f, (const uint8_t *)"data"); w_add_alt(T, f, (const uint8_t *)"LIST");
 			break;
 		case WK_U16:
+			{ static const uint32_t c16[] = { 0, 1, 3, 22, 0xfffe, 0xffff, 0x100, 0x8000 }; for (unsigned k = 0; k < sizeof(c16) / sizeof(c16[0]); k++) w_add_num(T, f, c16[k]); }
+			break;
+		case WK_U32:
+			{ static const uint32_t c32[] = { 0, 1, 16, 17, 18, 40, 0x7fffffffu, 0x80000000u, 0xffffffeeu, 0xfffffff7u, 0xffffffffu };
+			  for (unsigned k = 0; k < sizeof(c32) / sizeof(c32[0]); k++) w_add_num(T, f, c32[k]);
+			  w_add_num(T, f, w_get32(T->bytes + f->off) + 1); }
+			break;
+		case WK_GUID:
+			memset(b, 0, 16); w_add_alt(T, f, b);
+			memcpy(b, T->bytes + f->off, 16); b[0] = 0xfe; b[1] = 0xff; w_add_alt(T, f, b);
+			memcpy(b, T->bytes + f->off, 16); b[0] = 3; b[1] = 0; w_add_alt(T, f, b);
+			break;
+		}
+		w_core = 0;
+		switch (f->kind) {
+		case WK_ID:
+			for (int k = 0; k < 4; k++) { memcpy(b, T->bytes + f->off, 4); b[k]++; w_add_alt(T, f, b); }	/* one byte off, each position */
+			for (int k = 0; k < 4; k++) {
+				memcpy(b, T->bytes + f->off, 4);
+				if (w_isalpha(b[k])) { b[k] ^= 0x20; w_add_alt(T, f, b); letters++; }
+			}
+			memcpy(b, T->bytes + f->off, 4);
+			for (int k = 0; k < 4; k++) if (w_isalpha(b[k])) b[k] ^= 0x20;
+			if (letters) w_add_alt(T, f, b);
+			for (unsigned k = 0; k < sizeof(ids) / sizeof(ids[0]); k++) w_add_alt(T, f, (const uint8_t *)ids[k]);
+			break;
+		case WK_U16:
+			cur = w_get16(T->bytes + f->off);
 			for (unsigned k = 0; k < sizeof(m16) / sizeof(m16[0]); k++) w_add_num(T, f, m16[k]);
+			w_add_k16(T, f, cur);
+			if (0 == strcmp(f->name, "audio_format")) for (unsigned k = 0; k < sizeof(tag16) / sizeof(tag16[0]); k++) w_add_num(T, f, tag16[k]);
+			if (0 == strcmp(f->name, "bits_per_sample") || 0 == strcmp(f->name, "valid_bits_per_sample")) { w_add_k16(T, f, 16); w_add_k16(T, f, 32); }
+			if (0 == strcmp(f->name, "cb_size")) w_add_k16(T, f, 22);
 			break;
 		case WK_U32:
 			cur = w_get32(T->bytes + f->off);
 			for (unsigned k = 0; k < sizeof(m32) / sizeof(m32[0]); k++) w_add_num(T, f, m32[k]);
 			w_add_num(T, f, cur - 1); w_add_num(T, f, cur + 1);
+			w_add_num(T, f, cur + 0x100); w_add_num(T, f, cur + 0x10000);
 			w_add_num(T, f, 0x7fffffffu); w_add_num(T, f, 0x80000000u);
 			for (uint32_t v = 0xffffffeeu; v != 0; v++) w_add_num(T, f, v);
 			break;
 		case WK_GUID:
 			memset(b, 0, 16); w_add_alt(T, f, b);
 			memcpy(b, T->bytes + f->off, 16); b[0] ^= 1; w_add_alt(T, f, b);
-			/* the first two bytes of the sub-format GUID are a format tag of their own: the 16-bit menu applies */
+			/* the first two bytes of the sub-format GUID are a format tag of their own: the 16-bit menu of a tag applies */
 			for (unsigned k = 0; k < sizeof(m16) / sizeof(m16[0]); k++) { memcpy(b, T->bytes + f->off, 16); b[0] = (uint8_t)m16[k]; b[1] = (uint8_t)(m16[k] >> 8); w_add_alt(T, f, b); }
+			for (unsigned k = 0; k < sizeof(tag16) / sizeof(tag16[0]); k++) { memcpy(b, T->bytes + f->off, 16); b[0] = (uint8_t)tag16[k]; b[1] = (uint8_t)(tag16[k] >> 8); w_add_alt(T, f, b); }
 			break;
 		}
 	}
@@ -134,6 +198,32 @@ static void w_setup_templates(void)
 	w_id("fmt_chunk_id", "fmt "); w_u32("fmt_chunk_size", 20); w_fmt_body(1, 2, 44100, 2); w_u16("cb_size", 2);
 	w_u16("ignored_ext", 0xadde);
 	w_id("data_chunk_id", "data"); w_u32("data_chunk_size", 4000); w_end();
+	/* a fact chunk does not depend on the shape of the fmt chunk: 16-byte fmt + fact, 40-byte extensible fmt + fact */
+	w_begin("PCM16+fact");
+	w_id("chunk_id", "RIFF"); w_u32("chunk_size", 48 + 4004); w_id("format", "WAVE");
+	w_id("fmt_chunk_id", "fmt "); w_u32("fmt_chunk_size", 16); w_fmt_body(1, 2, 44100, 2);
+	w_id("fact_chunk_id", "fact"); w_u32("fact_chunk_size", 4); w_u32("sample_length", 1001);
+	w_id("data_chunk_id", "data"); w_u32("data_chunk_size", 4004); w_end();
+	w_begin("EXT40+fact");
+	w_id("chunk_id", "RIFF"); w_u32("chunk_size", 72 + 8008); w_id("format", "WAVE");
+	w_id("fmt_chunk_id", "fmt "); w_u32("fmt_chunk_size", 40); w_fmt_body(0xfffe, 2, 48000, 4); w_u16("cb_size", 22);
+	w_u16("valid_bits_per_sample", 24); w_u32("channel_mask", 3); w_guid("sub_format", pcm_guid);
+	w_id("fact_chunk_id", "fact"); w_u32("fact_chunk_size", 4); w_u32("sample_length", 1001);
+	w_id("data_chunk_id", "data"); w_u32("data_chunk_size", 8008); w_end();
+	/* files met in practice carry other chunks between fmt and data. For the grammar librfn documents the chunk that
+	 * follows fmt (or fact) IS the last chunk of the header, whatever its id: these two templates are a 44-byte and a
+	 * 58-byte header followed by 12 / 14 further bytes that happen to look like the rest of a longer header */
+	w_begin("PCM16+LIST");
+	w_id("chunk_id", "RIFF"); w_u32("chunk_size", 48 + 4012); w_id("format", "WAVE");
+	w_id("fmt_chunk_id", "fmt "); w_u32("fmt_chunk_size", 16); w_fmt_body(1, 2, 44100, 2);
+	w_id("data_chunk_id", "LIST"); w_u32("data_chunk_size", 4); w_id("list_type", "INFO");
+	w_id("next_chunk_id", "data"); w_u32("next_chunk_size", 4012); w_end();
+	w_begin("FLOAT+fact+JUNK");
+	w_id("chunk_id", "RIFF"); w_u32("chunk_size", 64 + 4016); w_id("format", "WAVE");
+	w_id("fmt_chunk_id", "fmt "); w_u32("fmt_chunk_size", 18); w_fmt_body(3, 1, 44100, 4); w_u16("cb_size", 0);
+	w_id("fact_chunk_id", "fact"); w_u32("fact_chunk_size", 4); w_u32("sample_length", 1004);
+	w_id("data_chunk_id", "JUNK"); w_u32("data_chunk_size", 6); w_u32("junk_payload", 0x11223344); w_u16("junk_payload2", 0x5566);
+	w_id("next_chunk_id", "data"); w_u32("next_chunk_size", 4016); w_end();
 }
 
 /* ------------------------------------------------------------------ cases */
@@ -142,6 +232,7 @@ typedef struct {
 	int nd, fld[W_MAXDEV], alt[W_MAXDEV];
 	uint8_t buf[W_BUFMAX];
 	int n, tmin;			/* presented at every length tmin..n */
+	int tdup;			/* lengths <= tdup are inputs of a case with fewer deviations (-1: none) */
 	char desc[256];
 } w_case;
 typedef void (*w_case_fn)(const w_case *c);
@@ -183,12 +274,18 @@ static w_case w_cc;
 static void w_rec(int from, int want, w_case_fn fn, int partitioned)
 {
 	w_template *T = &w_tmpl[w_cc.tmpl];
-	if (w_cc.nd == want) { w_tick(); if (!w_stop) { w_mkdesc(&w_cc); fn(&w_cc); } return; }
+	if (w_cc.nd == want) {
+		w_tick();
+		w_cc.tdup = w_cc.nd ? T->f[w_cc.fld[w_cc.nd - 1]].off : -1;
+		if (!w_stop) { w_mkdesc(&w_cc); fn(&w_cc); }
+		return;
+	}
 	for (int f = from; f < T->nf && !w_stop; f++) {
 		w_field *F = &T->f[f]; int w = w_kwidth[F->kind]; uint8_t keep[16];
 		if (partitioned && w_cc.nd == 0 && want == 1 && !vx_mine(100 + (uint64_t)w_cc.tmpl * W_MAXF + (uint64_t)f)) continue;
 		memcpy(keep, w_cc.buf + F->off, (size_t)w);
 		for (int a = 0; a < F->nalt && !w_stop; a++) {
+			if (want >= 3 && !F->core[a]) continue;	/* triple deviations: core menu */
 			if (partitioned && w_cc.nd == 0 && want >= 2 &&
 			    !vx_mine(1000 + ((uint64_t)w_cc.tmpl * W_MAXF + (uint64_t)f) * W_MAXALT + (uint64_t)a)) continue;
 			memcpy(w_cc.buf + F->off, F->alt[a], (size_t)w);
@@ -217,7 +314,7 @@ static void w_enum_strings(int len, w_case_fn fn, int partitioned)
 	for (uint64_t v = 0; v < total && !w_stop; v++) {
 		if (partitioned && !vx_mine(len == 0 ? 0 : (v & 0xff))) { if (len) continue; else break; }
 		memset(&w_cc, 0, sizeof(w_cc));
-		w_cc.tmpl = -1; w_cc.n = w_cc.tmin = len;
+		w_cc.tmpl = -1; w_cc.n = w_cc.tmin = len; w_cc.tdup = -1;
 		int k = snprintf(w_cc.desc, sizeof(w_cc.desc), "bytes[");
 		for (int i = 0; i < len; i++) {	/* first byte = low byte of v, so the partition is by first byte */
 			w_cc.buf[i] = (uint8_t)(v >> (8 * i));
@@ -232,7 +329,7 @@ static void w_enum_strings(int len, w_case_fn fn, int partitioned)
 static char *w_case_replay(const w_case *c)
 {
 	vx_sb sb = { 0 };
-	vx_sb_printf(&sb, "kind=wavbytes\ndesc=%s\ntmpl=%d\nn=%d\ntmin=%d\nhex=", c->desc, c->tmpl, c->n, c->tmin);
+	vx_sb_printf(&sb, "kind=wavbytes\ndesc=%s\ntmpl=%d\nn=%d\ntmin=%d\ntdup=%d\nhex=", c->desc, c->tmpl, c->n, c->tmin, c->tdup);
 	for (int i = 0; i < c->n; i++) vx_sb_printf(&sb, "%02x", c->buf[i]);
 	vx_sb_printf(&sb, "\n");
 	return sb.s;
@@ -249,8 +346,9 @@ static int w_case_parse(const char *rp, w_case *c)
 	c->n = atoi(v);
 	if (!(v = vx_replay_field(rp, "tmin"))) return -1;
 	c->tmin = atoi(v);
+	c->tdup = (v = vx_replay_field(rp, "tdup")) ? atoi(v) : -1;
 	if (!(v = vx_replay_field(rp, "hex"))) return -1;
-	if (c->n < 0 || c->n > W_BUFMAX || (int)strlen(v) != 2 * c->n) return -1;
+	if (c->n < 0 || c->n > W_BUFMAX || (int)strlen(v) != 2 * c->n || c->tmin < 0 || c->tdup >= c->n) return -1;
 	for (int i = 0; i < c->n; i++) { unsigned b; if (sscanf(v + 2 * i, "%2x", &b) != 1) return -1; c->buf[i] = (uint8_t)b; }
 	c->nd = -1;	/* unknown; w_owns() is not used when replaying */
 	return 0;
@@ -282,7 +380,9 @@ static const uint8_t *w_place(const uint8_t *src, int t, int right)
  *   RIFF size WAVE | "fmt " size, 16 bytes | if size >= 18: cb_size, then the 22-byte
  *   extension when cb_size == 22, otherwise size-18 ignored bytes | optional "fact" size
  *   sample_length | id size.
- * It looks only at the n bytes it is given. */
+ * It looks only at the n bytes it is given. Where the size field of a chunk disagrees with the fixed layout (fmt sizes
+ * below 16, 17 or odd; cb_size 22 in a fmt chunk that is not 40 bytes; a fact chunk whose size field is not 4, the size of
+ * the one payload word of the layout) the statement does not say how long the header is: consistent = 0. */
 typedef struct {
 	int complete;			/* the whole header lies inside the n bytes */
 	uint64_t len;			/* header length (valid when complete) */
@@ -308,7 +408,10 @@ static void w_ref_parse(const uint8_t *b, uint64_t n, w_ref *r)
 		else { r->skip_off = 38; r->skip_len = (uint64_t)r->fmt_size - 18; pos += r->skip_len; }
 	}
 	if (pos + 4 > n) return;
-	if (0 == memcmp(b + pos, "fact", 4)) pos += 12;
+	if (0 == memcmp(b + pos, "fact", 4)) {
+		if (pos + 8 <= n && w_get32(b + pos + 4) != 4) r->consistent = 0;
+		pos += 12;
+	}
 	pos += 8;
 	r->len = pos;
 	r->complete = pos <= n;
@@ -381,7 +484,7 @@ static void w_big_setup(void)
  * input named in the signature, the replay and the message; later cases of the same class
  * are counted under that signature. All workers first run the small common part of the
  * corpus silently (w_silent) so that they agree on these first cases. */
-typedef struct { char *key, *sig, *replay, *msg; } w_class;
+typedef struct { char *key, *sig, *replay, *msg; int emitted; } w_class;
 static w_class w_classes[64];
 static int w_nclasses;
 static int w_silent;
@@ -397,14 +500,38 @@ static void w_report(const char *key, const char *casetxt, const char *replay, c
 		if (asprintf(&sig, "%s|%s", key, casetxt) < 0) _exit(3);
 		if (w_nclasses < 64) {
 			e = &w_classes[w_nclasses++];
-			e->key = strdup(key); e->sig = sig; e->replay = strdup(replay); e->msg = m;
+			e->key = strdup(key); e->sig = sig; e->replay = strdup(replay); e->msg = m; e->emitted = 0;
 		} else {
 			if (!w_silent) vx_violation(sig, replay, "%s", m);
 			free(sig); free(m);
 			return;
 		}
 	}
-	if (!w_silent) vx_violation(e->sig, e->replay, "%s", e->msg);
+	if (!w_silent) { vx_violation(e->sig, e->replay, "%s", e->msg); e->emitted = 1; }
+}
+
+/* ------------------------------------------------- endless loops
+ * A call that never returns costs one to two watchdog periods, and the inputs that provoke it come in thousands: after
+ * W_MAXHANGS of them the worker stops enumerating (the run is then not exhaustive, a note says so) and hands in what it
+ * found - including the classes it met only in the silent common part, which would otherwise be lost. */
+#define W_MAXHANGS 2
+static int w_hang_abort;
+static void w_after_fault(void)
+{
+	if (vx_hangs_seen >= W_MAXHANGS) { w_hang_abort = 1; w_stop = 1; }
+	else if (vx_fault_kind == VX_FAULT_HANG && vx_deadline_passed()) w_stop = 1;
+}
+static void w_flush_classes(void)
+{
+	for (int i = 0; i < w_nclasses; i++)
+		if (!w_classes[i].emitted) { vx_violation(w_classes[i].sig, w_classes[i].replay, "%s", w_classes[i].msg); w_classes[i].emitted = 1; }
+}
+/* call once, after the enumeration */
+static void w_hang_epilogue(void)
+{
+	if (!w_hang_abort) return;
+	w_flush_classes();
+	vx_note("enumeration stopped after %d calls that did not return within a watchdog period (each is reported as a violation); the stated space was not completed", W_MAXHANGS);
 }
 
 #define W_COUNT(name, k) do { if (!w_silent) vx_count(name, k); } while (0)
